@@ -234,6 +234,22 @@ class TimeoutCM:
         return True
 
 
+class SuppressCM:
+    """contextlib.suppress(*exceptions): an exception of one of the given classes raised inside the block ends the block silently."""
+
+    def __init__(self, types):
+        self.types = tuple(types)
+
+    def pyvc_enter(self, it, is_async):
+        return None
+
+    def pyvc_exit(self, it, exc, is_async):
+        return exc is not None and bool(self.types) and it.exc_matches(exc, self.types)
+
+    def pyvc_truth(self, it):
+        return True
+
+
 class LockVal:
     def __init__(self, aio: Aio, name='lock'):
         self.aio = aio
@@ -379,6 +395,7 @@ def install(it) -> Aio:
     reg('asyncio.Event', lambda it2, a, k: EventVal(aio))
     reg('asyncio.Future', lambda it2, a, k: TaskVal(aio, None, '', kind='future'))
     reg('async_timeout.timeout', lambda it2, a, k: TimeoutCM(aio, a[0] if a else None))
+    reg('contextlib.suppress', lambda it2, a, k: SuppressCM(a))
     reg('asyncio.iscoroutinefunction', lambda it2, a, k: _iscoro(a[0]))
     reg('inspect.iscoroutinefunction', lambda it2, a, k: _iscoro(a[0]))
     reg('inspect.isawaitable', lambda it2, a, k: hasattr(a[0], 'pyvc_await'))
